@@ -116,6 +116,26 @@ pub struct ColCfg {
 	pub keys: Vec<Vec<u8>>,
 	/// For preimage columns: the value every key maps to.
 	pub preimage_vals: Vec<ValSpec>,
+	/// (seed, count, mask): the last `count` keys are `bulk_keys(seed, count, mask)` (kept out of
+	/// replay files).
+	pub bulk: Option<(u64, u32, u16)>,
+}
+
+/// Many 32-byte keys (identity-hash column); `mask` restricts the index pages they spread over.
+pub fn bulk_keys(seed: u64, n: u32, mask: u16) -> Vec<Vec<u8>> {
+	let mut r = Rng::new(seed);
+	let mut seen = std::collections::HashSet::new();
+	let mut out = Vec::with_capacity(n as usize);
+	while out.len() < n as usize {
+		let mut k = vec![0u8; 32];
+		r.fill(&mut k);
+		let top = u16::from_be_bytes([k[0], k[1]]) & mask;
+		k[0..2].copy_from_slice(&top.to_be_bytes());
+		if seen.insert(k.clone()) {
+			out.push(k);
+		}
+	}
+	out
 }
 
 #[derive(Clone, Debug)]
@@ -182,7 +202,8 @@ impl RunCfg {
 				"kind": c.kind.name(),
 				"compression": c.compression,
 				"threshold": c.threshold,
-				"keys": c.keys.iter().map(|k| key_json(k)).collect::<Vec<_>>(),
+				"keys": c.keys[..c.keys.len() - c.bulk.map_or(0, |b| b.1 as usize)].iter().map(|k| key_json(k)).collect::<Vec<_>>(),
+				"bulk": c.bulk.map(|(s, n, m)| json!({"seed": s.to_string(), "n": n, "mask": m})),
 				"preimage_vals": c.preimage_vals.iter().map(|v| v.json()).collect::<Vec<_>>(),
 			})).collect::<Vec<_>>(),
 			"salt_zero": self.salt_zero,
@@ -203,17 +224,27 @@ impl RunCfg {
 				.as_array()
 				.unwrap()
 				.iter()
-				.map(|c| ColCfg {
+				.map(|c| {
+					let bulk = c.get("bulk").filter(|b| b.is_object()).map(|b| {
+						(b["seed"].as_str().unwrap().parse::<u64>().unwrap(), b["n"].as_u64().unwrap() as u32, b["mask"].as_u64().unwrap() as u16)
+					});
+					let mut keys: Vec<Vec<u8>> = c["keys"].as_array().unwrap().iter().map(key_from_json).collect();
+					if let Some((s, n, m)) = bulk {
+						keys.extend(bulk_keys(s, n, m));
+					}
+					ColCfg {
 					kind: ColKind::parse(c["kind"].as_str().unwrap()),
 					compression: c["compression"].as_u64().unwrap() as u8,
 					threshold: c["threshold"].as_u64().unwrap() as u32,
-					keys: c["keys"].as_array().unwrap().iter().map(key_from_json).collect(),
+					keys,
+					bulk,
 					preimage_vals: c["preimage_vals"]
 						.as_array()
 						.unwrap()
 						.iter()
 						.map(ValSpec::from_json)
 						.collect(),
+					}
 				})
 				.collect(),
 			salt_zero: j["salt_zero"].as_bool().unwrap(),
